@@ -87,6 +87,18 @@ class C06(Monitor):
                 ctx.count("c06_position_changes")
                 if not frames or exp_km <= 0 and v.geoid != p.geoid:
                     ctx.violate("C06", "position-changed-without-driving", f"{v.id} went from {p.position} to {v.position} without a driven route", vehicle=v.id)
+            # the route kept in the state only ever shrinks from the front: within one journey it is a remainder of what it was a
+            # step ago, with the same destination, and it is used up only where that route ended
+            if aname(v) in TRAVELLING and aname(p) == aname(v) and getattr(v.vehicle_state, "instance_id", 0) == getattr(p.vehicle_state, "instance_id", 1):
+                r0, r1 = nz(p.vehicle_state.route), nz(v.vehicle_state.route)
+                if r0:
+                    ctx.count("c06_stored_routes_compared_with_the_previous_step")
+                    if r1:
+                        i0, i1 = collapse([l.link_id for l in r0]), collapse([l.link_id for l in r1])
+                        if i0[len(i0) - len(i1):] != i1 or r1[-1].end != r0[-1].end:
+                            ctx.violate("C06", "stored-route-not-a-remainder", f"{v.id} ({aname(v)}): route {i1[:6]}..->{r1[-1].end} is not a remainder of the previous step's {i0[:6]}..->{r0[-1].end}", vehicle=v.id)
+                    elif v.geoid != r0[-1].end and r0[0].start != r0[-1].end:
+                        ctx.violate("C06", "route-dropped-before-its-end", f"{v.id} ({aname(v)}) has no route left but stands at {v.geoid}, the route it had a step ago ends at {r0[-1].end}", vehicle=v.id, activity=aname(v))
             # arrival: whoever stood with an exhausted route after the previous step has left that activity now
             if not ctx.hostile and v.id in self.arrived:
                 inst = self.arrived.pop(v.id)
